@@ -7,6 +7,8 @@ from __future__ import annotations
 
 import asyncio
 
+from hypothesis import strategies as st
+
 from hv import conc
 from hv import progs as P
 from hv.core import Outcome
@@ -23,6 +25,7 @@ RULE = (
     "state; distinct = distinct program"
 )
 RULE += '; template: a spawned task fails early and the body fails differently a few steps later'
+RULE += '; blocks whose body spawns and then fails with every exception of the family (unrenderable, attribute-rejecting, message-less ...)'
 LEVEL_TEXT = (
     "Exhaustive single-fault injection per generated program: around every block the harness takes a side-effect-free "
     "context fingerprint (state per family type by identity, metrics scope, task group) before entering and in a "
@@ -159,7 +162,8 @@ def run_case(case) -> Outcome:
 
 
 def strategy(tier):
-    return conc.program(disp_faults=True, body_raises=True).map(lambda p: {**p, "inject": None})
+    progs = conc.program(disp_faults=True, body_raises=True)
+    return st.one_of(progs, progs, progs, progs, progs, conc.failing_body_program()).map(lambda p: {**p, "inject": None})
 
 
 def budget(tier):
